@@ -21,6 +21,8 @@ def run(tier, replay=None):
                      "a complete set, no set, write mode and a disabled root must give the scanning server's answers",
                      "C15.idem is demanded for write-mode starts with no file action in between",
                      "C15.contig is decided on the first tfdt and the summed sample durations of the served segments 0..N+1",
+                     "the reference is the scanning server (no metadata root) of the same VoD root, as the property defines it; the "
+                     "$Time$ values of audio requests are read from its MPD (inputs only)",
                      "admissibility ground truth is by construction of the generated layouts (loop ticks * 1000 mod timescale; "
                      "two video representations of 4 s and 3 s)"]
     c.trusted = ["harness/drive/c15 recorder (request pool, per-class digests, file damage)", "harness/assetgen", "TLC"]
@@ -101,5 +103,5 @@ def run(tier, replay=None):
                     "server_instances": st["instances"], "read_mode_instances_with_root": st["cache_read_instances"],
                     "requests": st["requests"], "pool_per_instance": st["pool"], "asset_outcomes": st["outcomes"],
                     "complete_contiguity_windows": st["full_contig_windows"], "idem_comparisons": idem_compared,
-                    "events_by_type": seen, "assets": st["assets"], "driver_wall_s": st["_wall_s"]})
+                    "events_by_type": seen, "damage_on_unusable_file": st.get("damage_on_unusable_file", 0), "assets": st["assets"], "driver_wall_s": st["_wall_s"]})
     return c.finish()
